@@ -602,7 +602,7 @@ func (e *Extractor) extractSuffixes(re *syntax.Regexp, depth int) *Seq {
 	case syntax.OpLiteral:
 		// Case-insensitive literal: expand case-folding variants
 		if re.Flags&syntax.FoldCase != 0 {
-			return e.expandCaseFoldLiteral(re.Rune)
+			return e.expandCaseFoldLiteralTail(re.Rune)
 		}
 		// Direct literal
 		bytes := runeSliceToBytes(re.Rune)
@@ -667,6 +667,16 @@ func (e *Extractor) extractSuffixes(re *syntax.Regexp, depth int) *Seq {
 					lits[j] = NewLiteral(lit.Bytes, false) // Mark as incomplete
 				}
 				return NewSeq(lits...)
+			}
+
+			// A suffix that does not span the whole element to its right (it was cut
+			// at a wildcard inside it: \w+\.com gives ".com") cannot be extended to
+			// the left: what precedes it in a match is the rest of that element, not
+			// this literal (\w+@(\w+\.com) does not end in "@.com").
+			for j := 0; j < suffixes.Len(); j++ {
+				if !suffixes.Get(j).Complete {
+					return suffixes
+				}
 			}
 
 			// Prepend this literal to all suffixes (cross_reverse)
@@ -960,6 +970,46 @@ func (e *Extractor) generateCaseFoldVariants(foldSets [][]rune, prefixLen int) *
 		lits = append(lits, NewLiteral(b, complete))
 	}
 	return NewSeq(lits...)
+}
+
+// expandCaseFoldLiteralTail is expandCaseFoldLiteral for suffix extraction: when
+// the spellings of the whole literal exceed MaxLiterals it keeps the END of the
+// literal, not its beginning. The head of (?i)abcdefg---sxyz is no suffix of
+// anything the pattern matches; .*(?i:abcdefg---sxyz) found nothing.
+func (e *Extractor) expandCaseFoldLiteralTail(runes []rune) *Seq {
+	seq := e.expandCaseFoldLiteral(runes)
+	trimmed := false
+	for i := 0; i < seq.Len(); i++ {
+		if !seq.Get(i).Complete {
+			trimmed = true
+		}
+	}
+	if !trimmed {
+		return seq
+	}
+	// Longest tail whose spellings fit
+	product := 1
+	tail := 0
+	for i := len(runes) - 1; i >= 0; i-- {
+		product *= len(caseFolds(runes[i]))
+		if product > e.config.MaxLiterals {
+			break
+		}
+		tail++
+	}
+	if tail == 0 {
+		return NewSeq()
+	}
+	foldSets := make([][]rune, tail)
+	for i := 0; i < tail; i++ {
+		foldSets[i] = caseFolds(runes[len(runes)-tail+i])
+	}
+	result := e.generateCaseFoldVariants(foldSets, tail)
+	for i := range result.literals {
+		result.literals[i].Complete = false
+	}
+	result.Dedup()
+	return result
 }
 
 // findMaxCaseFoldPrefix finds the maximum prefix length where the cross-product
